@@ -250,6 +250,7 @@ pub fn run_deflate<Zx: Z>(cfg: &DCfg, input: &[u8], sched: &DSched, env: &Env, e
             }
         }
         t.bound = Zx::deflateBound(s.p(), input.len() as _) as u64;
+        let mut keep_alive: Vec<Strm> = vec![];
         let mut pos = 0usize; // consumed
         let mut given = 0usize; // made available
         let mut sum_in: u64 = 0;
@@ -365,7 +366,10 @@ pub fn run_deflate<Zx: Z>(cfg: &DCfg, input: &[u8], sched: &DSched, env: &Env, e
                         return Err(format!("{}: deflateCopy after call {ncalls} returned {}", Zx::NAME, rc_name(r)));
                     }
                     Zx::deflateEnd(s.p());
-                    s = d;
+                    // the copy inherits zalloc / zfree / opaque of the original: the original's allocator record has
+                    // to outlive it
+                    let orig = std::mem::replace(&mut s, d);
+                    keep_alive.push(orig);
                 }
                 probe!();
                 if just_reset {
